@@ -78,7 +78,10 @@ static OCase gen_case() {
       s.kby = (int)R(0, 2);
     }
     s.kseed = seed64();
-    s.kneg = 0;  // non-negative kernels keep opaque content opaque
+    s.kneg = 0;  // non-negative kernels keep opaque content opaque ...
+    // ... when they sum to one.  A kernel that sums to less makes an alpha-less image translucent (its alpha reads as the
+    // kernel sum), so the a8r8g8b8(a=255) presentation stays the reference and the "opaque" shortcuts must not fire.
+    if (coin(30)) s.ksum = (int)R(40, 99);  // (reset below when a solid presentation is involved)
   }
   sc.sx = (int)R(-3, 4);  // partly outside a REPEAT_NONE source
   sc.sy = (int)R(-2, 2);
@@ -89,6 +92,22 @@ static OCase gen_case() {
   sc.mask.bits.h = sc.h + (int)R(0, 2);
   sc.mx = (int)R(0, sc.mask.bits.w - sc.w);
   sc.my = (int)R(0, sc.mask.bits.h - sc.h);
+  if (coin(30)) {
+    // a scaled mask whose samples (and their bilinear neighbours) all lie inside it: an alpha-less mask format is then
+    // "opaque" for the lookup, an a8 mask of 0xff is not (bits masks hold opaque white everywhere, so every presentation
+    // still means "no mask")
+    SImg &m = sc.mask;
+    m.has_transform = 1;
+    m.m = {65536, 0, 0, 0, 65536, 0, 0, 0, 65536};
+    m.m[0] = coin(50) ? pick<int64_t>({32768, 98304, 43691, 131072, 65536}) : R(20000, 150000);
+    m.m[4] = coin(50) ? m.m[0] : R(20000, 150000);
+    m.filter = pickw({3, 7});
+    sc.mx = (int)R(0, 3);
+    sc.my = (int)R(0, 2);
+    fit_cover(m.m[0], sc.mx, sc.w, m.bits.w, m.m[2]);
+    fit_cover(m.m[4], sc.my, sc.h, m.bits.h, m.m[5]);
+    m.repeat = coin(60) ? 0 : (int)R(1, 3);
+  }
   c.role = pickw({5, 3, 4});
   c.sp = (int)R(0, SP_N - 1);
   c.mp = (int)R(0, MP_N - 1);
@@ -109,6 +128,7 @@ static OCase gen_case() {
   c.uniform = sp_uniform(sa) || sp_uniform(sb);
   c.c565 = sp_565(sa) || sp_565(sb);
   if (c.uniform && s.repeat == 0) s.repeat = (int)R(1, 3);  // a solid colour has no outside
+  if (c.uniform) s.ksum = 100;                                // ... and is not dimmed by a kernel that sums to less than one
   c.cseed = seed64();
   return c;
 }
